@@ -26,7 +26,23 @@ class BuiltinMixin:
                 for k in sorted(kw):
                     d = self.voc.dset(d, self.voc.S2V(z3.StringVal(k)), self.box(kw[k]))
                 return self.call_named("jinja2.Template.render", [tmpl, SV(d, "dict")], {}, st, fr, node)
+        if isinstance(fn, ast.Attribute) and fn.attr == "write":
+            target = self.ev(fn.value, st, fr)
+            if target.pt == "obj:file":
+                text = self.ev(node.args[0], st, fr)
+                self.effect(st, fr, "write", node)
+                st.env["$written"] = text
+                return SV(self.voc.NONE, "none")
+        if isinstance(fn, ast.Attribute) and ("method:" + fn.attr) in self.side.assumed:
+            recv = self.ev(fn.value, st, fr)
+            if recv.pt in ("any",) or recv.pt.startswith("obj:"):
+                if not (self.static_class(recv) and self.repo.find_method(self.static_class(recv), fn.attr)):
+                    args, kwargs = self.eval_args(node, st, fr)
+                    return self.call_named("method:" + fn.attr, [recv] + args, kwargs, st, fr, node)
         callee = self.ev(fn, st, fr)
+        if callee.pt == "any" and isinstance(fn, ast.Attribute) and ("attr:" + fn.attr) in self.side.assumed:
+            args, kwargs = self.eval_args(node, st, fr)
+            return self.call_named("attr:" + fn.attr, [callee] + args, kwargs, st, fr, node)
         if callee.pt == "pyfunc":
             kind = callee.py[0]
             if kind == "method":
@@ -289,6 +305,12 @@ class BuiltinMixin:
     def quantify(self, seq: SV, pred, combine, st, fr, esort="any"):
         """exists/forall over the elements of a list, as a quantifier over the index"""
         v = self.voc
+        if z3.is_app(seq.t) and seq.t.decl().kind() == z3.Z3_OP_ITE:
+            # quantifier over a conditional container: distribute, so that triggers see the real terms
+            c, a, b = seq.t.children()
+            qa = self.under(st, c, lambda: self.quantify(SV(a, seq.pt), pred, combine, st, fr, esort))
+            qb = self.under(st, z3.Not(c), lambda: self.quantify(SV(b, seq.pt), pred, combine, st, fr, esort))
+            return z3.If(c, qa, qb)
         seq = SV(self.named(seq.t, st), seq.pt, seq.py)
         j = self.fresh("qj", z3.IntSort())
         n_f = len(st.facts)
@@ -355,6 +377,8 @@ class BuiltinMixin:
     def bi_getattr(self, node, st, fr):
         obj = self.ev(node.args[0], st, fr)
         name = ast.literal_eval(node.args[1])
+        if obj.pt == "tlocal" and len(node.args) == 3:
+            return self.tl_get(obj, name, st, fr, self.box(self.ev(node.args[2], st, fr)))
         # getattr(self, '_hash', None): slot may be unset -> default; modelled as "None when unset" = plain read
         return self.get_attr(obj, name, st, fr, node)
 
@@ -404,7 +428,7 @@ class BuiltinMixin:
     # ------------------------------------------------------------------ spec-only functions (contract language)
     SPEC_ONLY = {"card", "implies", "iff", "forall", "exists", "subset", "set_eq", "old", "is_class", "keys_of",
                  "ty_is", "same_class", "unchanged", "fresh_obj", "no_effects", "effects", "attr", "sel", "tuple2", "sval", "ival",
-                 "local", "mro_of", "as_dict", "as_list", "as_set", "seq_len", "dict_len", "truthy", "dict_get", "pyeval_str", "at", "is_none"}
+                 "local", "tl_get", "raw_tq_ok", "is_blank", "attr_of", "eq_str", "mro_of", "as_dict", "as_list", "as_set", "seq_len", "dict_len", "truthy", "dict_get", "pyeval_str", "at", "is_none"}
     SPEC_CONSTS = {}
 
     def bi_card(self, node, st, fr):
@@ -534,7 +558,7 @@ class BuiltinMixin:
         """unchanged('attr'): heap array of attr equals its value in the pre-state; unchanged('attr', obj): at obj"""
         attr = ast.literal_eval(node.args[0])
         cur = self.heap_get(st, attr)
-        old = self.heap_get(fr.old_state, attr) if fr.old_state is not None else self.heap0(attr)
+        old = self.heap_get(fr.old_state, attr) if fr.old_state is not None else self.heap0(attr, 0)
         if len(node.args) > 1:
             o = self.box(self.ev(node.args[1], st, fr))
             return SV(z3.Select(cur, o) == z3.Select(old, o), "bool")
@@ -592,8 +616,12 @@ class BuiltinMixin:
         return SV(z3.If(v.dhas(d, k), v.dget(d, k), default), "any")
 
     def bi_at(self, node, st, fr):
-        x = self.box(self.ev(node.args[0], st, fr))
+        xs = self.ev(node.args[0], st, fr)
         i = self.unbox(self.ev(node.args[1], st, fr), "int").t
+        isimp = z3.simplify(i)
+        if xs.py and xs.py[0] == "items" and z3.is_int_value(isimp) and 0 <= isimp.as_long() < len(xs.py[1]):
+            return xs.py[1][isimp.as_long()]
+        x = self.box(xs)
         return SV(self.voc.sat(x, i), "any")
 
     def bi_pyeval_str(self, node, st, fr):
@@ -627,3 +655,25 @@ class BuiltinMixin:
             pt = fr.contract.sorts.get(name, "any") if fr.contract is not None else "any"
             cache[name] = self.fresh_sv("ghost_" + name, pt)
         return cache[name]
+
+    def bi_tl_get(self, node, st, fr):
+        """tl_get(threadlocal, "attr"): the value a `getattr(tl, attr, None)` would observe in the current thread"""
+        obj = self.ev(node.args[0], st, fr)
+        return self.tl_get(obj, ast.literal_eval(node.args[1]), st, fr)
+
+    def bi_raw_tq_ok(self, node, st, fr):
+        x = self.unbox(self.ev(node.args[0], st, fr), "str")
+        return SV(self.voc.fn("raw_tq_ok", z3.StringSort(), z3.BoolSort())(x.t), "bool")
+
+    def bi_is_blank(self, node, st, fr):
+        x = self.unbox(self.ev(node.args[0], st, fr), "str")
+        return SV(self.voc.fn("is_blank", z3.StringSort(), z3.BoolSort())(x.t), "bool")
+
+    def bi_attr_of(self, node, st, fr):
+        obj = self.ev(node.args[0], st, fr)
+        return self.read_attr(obj, ast.literal_eval(node.args[1]), st, fr)
+
+    def bi_eq_str(self, node, st, fr):
+        a = self.ev(node.args[0], st, fr)
+        b = self.ev(node.args[1], st, fr)
+        return SV(self.box(a) == self.box(b), "bool")
